@@ -23,7 +23,7 @@ Lemma mapping_predicates_match_code :
   length mapping_table = 12%nat /\ forallb mapping_row_ok mapping_table = true.
 Proof. split; vm_compute; reflexivity. Qed.
 
-(* the real ServerTunnelHandler.HandleTunnelOpen on 4 x 2 x 3 x 2 x 5 = 240 combinations equals Model.validate.
+(* the real ServerTunnelHandler.HandleTunnelOpen on 4 x 2 x 9 (secrets incl. prefixes, suffix, right+1, case, one character) x 2 x 5 = 720 combinations equals Model.validate.
    Which secret-path variant the tree implements is read off the table itself (target client, right secret, revoked
    mapping); every other row must then agree with that variant. *)
 Definition tbl_client (k : N) : client := match k with 1 => 11 | 2 => 12 | 3 => 13 | _ => 0 end.
@@ -32,7 +32,7 @@ Definition tbl_state (k : N) : t_mstate :=
 Definition tbl_db (st : N) : db := fun m => if N.eqb m 1 then mk_mapping 11 12 101 (tbl_state st) else None.
 Definition tbl_req (names : bool) (sec : N) (res : bool) : request :=
   {| r_mid := if names then 1 else 0; r_tid := 7;
-     r_secret := match sec with 0 => 0 | 1 => 101 | _ => 999 end; r_resume := res |}.
+     r_secret := match sec with 0 => 0 | 1 => 101 | k => 990 + k end; r_resume := res |}.
 Definition tree_secret_isvalid : bool :=
   negb (existsb (fun row => let '((c, names, sec, res, st), acc) := row in
                             N.eqb c 2 && names && N.eqb sec 1 && negb res && N.eqb st 1 && acc) validator_table).
@@ -41,7 +41,7 @@ Definition validator_row_ok (row : (N * bool * N * bool * N) * bool) : bool :=
   let '((c, names, sec, res, st), acc) := row in
   Bool.eqb (validate tree_validator_variant (tbl_db st) (tbl_client c) (tbl_req names sec res)) acc.
 Lemma validator_matches_code :
-  length validator_table = 240%nat /\ forallb validator_row_ok validator_table = true.
+  length validator_table = 720%nat /\ forallb validator_row_ok validator_table = true.
 Proof. split; vm_compute; reflexivity. Qed.
 
 (* the table driven through the real dispatcher has exactly the cells of Model.all_cells *)
